@@ -42,6 +42,7 @@ def floors(m, tier):
             "universes with an entity whose sidecar name would be too long": (c.get("universes_with_a_long_name", 0), u // 8),
             "GetFromAll(non-default config) comparisons (second data configuration)": (c.get("all_calls_non_default_config", 0), u * k // 40),
             "get_one/get_data/get_attr": (c.get("single_calls", 0), u * 5),
+            "single-record calls on types without getter": (c.get("no_getter_single_calls", 0), u // 2),
             "get_data with a string / uri argument": (c.get("get_data_string_argument", 0), u * 3)}
 
 
@@ -252,6 +253,22 @@ def worker(args):
                         continue
                     if got not in ({"sid": long_sid}, [], [{"sid": long_sid}], {}):
                         rec.violation("read_of_impossible_name_differs", dict(case, call=who), repr(got)[:200])
+        # types configured WITHOUT Getter: "yields nothing, without failing" - also through get_data / get_attr / get_one of GetFromAll
+        for e1 in lab.full[:40]:
+            x1 = _S(e1)
+            if x1 and conf.get_getter_for(x1) is None:
+                rec.ev()
+                rec.count("no_getter_single_calls")
+                for who, fn, empty in (("GetFromAll.get_data", lambda: _GA().get_data(e1), ({}, None)), ("GetFromAll.get_attr", lambda: _GA().get_attr(e1, "comment"), (None,)),
+                                       ("GetFromAll.get_one", lambda: _GA().get_one(e1), ({}, None)), ("Sid.get_attr", lambda: x1.get_attr("comment"), (None,))):
+                    try:
+                        got1 = fn()
+                    except Exception as ex:
+                        rec.violation("call_on_type_without_getter_raised", dict(case, sid=e1, call=who), repr(ex))
+                        continue
+                    if got1 not in empty and dict(got1 or {}) != {}:
+                        rec.violation("type_without_getter_returned_data", dict(case, sid=e1, call=who), repr(got1)[:200])
+                break
         # searches on types configured without getter
         for s in ("*", "*/*", "*/*/*"):
             rec.ev()
